@@ -1,4 +1,5 @@
 import M3d.Lemmas.FastMapRefine
+import M3d.Lemmas.MeshQueries
 /-!
 # C09 — a mesh (and the coordinate-keyed maps underneath) answers as the plain set of faces would
 
@@ -33,6 +34,100 @@ example :
     let ops : List (Op Nat Nat) := [.store 1 10, .store 2 20, .load 1, .load 2, .len, .delete 1, .load 1, .len]
     isFast (store h (store h (empty : FM Nat Nat) 1 10) 2 20) = false ∧
       run h empty ops = [.unit, .unit, .val (some 10), .val (some 20), .num 2, .unit, .val none, .num 1] := by
+  decide
+
+/-! ### The mesh: lazy vertex index vs the plain set of faces -/
+open M3d.Mesh
+
+/-- Mesh-mutating operations of a history (queries that force the lazy index are `touch`). -/
+inductive MeshOp where
+  | add (f : Nat)
+  | remove (f : Nat)
+  | touch            -- any of Find / Neighbors / VertexSlice / IterateVertices: builds the index
+deriving Repr
+
+def stepMesh (h : Nat → UInt64) (tri : Nat → Tri) (m : Mesh.Mesh) : MeshOp → Mesh.Mesh
+  | .add f => m.add h tri f
+  | .remove f => m.remove h tri f
+  | .touch => (m.withIndex h tri).1
+
+/-- **The index is always coherent with the face set**: after any sequence of `Add` / `Remove`
+and index-forcing queries, in any order relative to the first lazy build, for every hash function
+and every assignment of corners to faces (shared vertices, duplicate-valued and degenerate faces
+included), the face set has no duplicates and the index — if built — holds under every vertex
+exactly the faces having that corner, with no empty slices. -/
+theorem index_coherent (h : Nat → UInt64) (tri : Nat → Tri) (ops : List MeshOp) :
+    Coherent h tri (ops.foldl (stepMesh h tri) Mesh.new) := by
+  suffices H : ∀ m, Coherent h tri m → Coherent h tri (ops.foldl (stepMesh h tri) m) from
+    H _ (coherent_new h tri)
+  induction ops with
+  | nil => intro m c; exact c
+  | cons op ops ih =>
+    intro m c
+    apply ih
+    cases op with
+    | add f => exact coherent_add h tri c f
+    | remove f => exact coherent_remove h tri c f
+    | touch => exact (coherent_withIndex h tri c).1
+
+/-- The face set itself behaves as a plain set: membership after `Add`/`Remove`. -/
+theorem faces_add_remove (h : Nat → UInt64) (tri : Nat → Tri) (m : Mesh.Mesh) (f g : Nat) :
+    (g ∈ (m.add h tri f).faces ↔ g = f ∨ g ∈ m.faces) ∧
+    (g ∈ (m.remove h tri f).faces ↔ g ≠ f ∧ g ∈ m.faces) := by
+  constructor
+  · have key : ∀ (fs : List Nat), g ∈ (if f ∈ m.faces then m.faces else m.faces ++ [f]) ↔ g = f ∨ g ∈ m.faces := by
+      intro _
+      by_cases hf : f ∈ m.faces
+      · simp only [hf, if_true]
+        exact ⟨Or.inr, fun hh => hh.elim (fun e => e ▸ hf) id⟩
+      · simp only [hf, if_false, List.mem_append, List.mem_singleton]
+        exact ⟨fun hh => hh.elim Or.inr Or.inl, fun hh => hh.elim Or.inr Or.inl⟩
+    unfold Mesh.add
+    cases m.index with
+    | none =>
+      by_cases hf : f ∈ m.faces
+      · simpa [hf] using key []
+      · simpa [hf] using key []
+    | some ix =>
+      by_cases hf : f ∈ m.faces
+      · simpa [hf] using key []
+      · simpa [hf] using key []
+  · unfold Mesh.remove
+    by_cases hf : f ∈ m.faces
+    · simp [hf]; exact ⟨fun x => ⟨x.2, x.1⟩, fun x => ⟨x.2, x.1⟩⟩
+    · simp [hf]; intro hg e; subst e; exact hf hg
+
+/-- **Every query answers as a freshly built list of the current faces would**: on any mesh
+reachable by a history, `Find(p, rest…)` returns a permutation of the faces containing all the
+points, `VertexSlice` returns each vertex of some face exactly once, and `Neighbors(f)` returns
+exactly the other faces sharing two corner slots with `f` — all stated against functions of the
+bare face list only (`specFind`, `specVertices`, `specNeighbors`). -/
+theorem query_eq_fresh (h : Nat → UInt64) (tri : Nat → Tri) (ops : List MeshOp) :
+    let m := ops.foldl (stepMesh h tri) Mesh.new
+    (∀ p rest, (m.find h tri (p :: rest)).2.Perm (specFind tri m.faces (p :: rest))) ∧
+    ((m.vertexSlice h tri).2.Nodup ∧ ∀ p, p ∈ (m.vertexSlice h tri).2 ↔ p ∈ specVertices tri m.faces) ∧
+    (∀ f g, g ∈ (m.neighbors h tri f).2 ↔ g ∈ specNeighbors tri m.faces f) := by
+  intro m
+  have c : Coherent h tri m := index_coherent h tri ops
+  exact ⟨fun p rest => find_perm_spec h tri c p rest, vertexSlice_spec h tri c,
+    fun f g => neighbors_spec h tri c f g⟩
+
+/-- Reversing orientation as specified (`specInvert`, what the correspondence compares
+`InvertNormals` with) reverses every face and is an involution. -/
+theorem invert_involutive (ts : List Tri) : specInvert (specInvert ts) = ts := by
+  induction ts with
+  | nil => rfl
+  | cons t ts ih =>
+    obtain ⟨a, b, c⟩ := t
+    simp only [specInvert, List.map_cons, List.map_map] at ih ⊢
+    rw [ih]
+
+/-- Non-vacuity: a history that builds the index midway, removes a face and queries. -/
+example :
+    let tri : Nat → Tri := fun f => if f = 0 then (0, 1, 2) else if f = 1 then (2, 1, 3) else (0, 0, 1)
+    let h : Nat → UInt64 := fun _ => 5      -- every key collides
+    let m := [MeshOp.add 0, .add 1, .touch, .add 2, .remove 0].foldl (stepMesh h tri) Mesh.new
+    m.faces = [1, 2] ∧ (m.find h tri [1]).2 = [2, 1] ∧ (m.neighbors h tri 1).2 = [] := by
   decide
 
 end M3d.C09
